@@ -1,5 +1,6 @@
 import HbsModel.Registry
 import HbsModel.Props.C18
+import HbsModel.Lemmas.GrammarTotal
 /-
   C04  Compiling any string terminates with a template or a TemplateError.
   The model's `compile2` is total; the Rust hazards (unwrap / unreachable! / slices) are explicit
@@ -94,5 +95,57 @@ theorem local_marker_with_name (k : Nat) (n raw : Str) (more : List PathSeg) :
     Path.new raw (.loc :: (List.replicate k .up ++ .named n :: more)) = .localVar k n raw := by
   have h := takeWhile_ups k (.named n :: more) (by simp)
   simp [Path.new, getLocalPathAndLevel, h]
+
+/-- PARSING TERMINATES, for every string and every entry rule: the PEG interpreter run on the regenerated grammar gives a
+    definite answer – a pair stream or a failure – and never the model's out-of-fuel outcome.  The grammar's well-formedness
+    (no rule can re-enter itself before a character is consumed; `nullable`/`rank` tables computed from `Grammar.rules`) is
+    decided by the kernel on every run (`Grammar.wfCheck_true`), the rest is `Pest.eval_total`, an induction on the fuel
+    with the bound `n * A + k * P + size e` (`n` characters left, `k` the rank bound, `A`, `P` constants of the grammar) -/
+theorem parsing_terminates (r : Grammar.Rule) (src : Str) :
+    Pest.parse Grammar.rules Grammar.ws r src ≠ .fuel := Grammar.parse_never_fuel r src
+
+/-- … with recursion depth linear in the length of the text: any fuel from `|src| * A + K * P + 1` on is enough -/
+theorem parsing_depth_is_linear (r : Grammar.Rule) (src : Str) (F : Nat)
+    (hF : src.length * Grammar.A + Grammar.K * Grammar.P + 1 ≤ F) :
+    Pest.eval Grammar.rules Grammar.ws F .nonAtomic (.rule r) ⟨0, src⟩ ≠ .fuel :=
+  Grammar.parse_terminates r src F hF
+
+/-- … and the same for ANY expression started anywhere, under any atomicity (sub-parsers, look-aheads, the whitespace skip) -/
+theorem evaluation_terminates (n F : Nat) (atom : Pest.Atom) (e : Pest.PExpr Grammar.Rule) (st : Pest.St)
+    (hn : st.rest.length ≤ n) (hF : n * Grammar.A + Grammar.K * Grammar.P + e.size ≤ F) :
+    Pest.eval Grammar.rules Grammar.ws F atom e st ≠ .fuel :=
+  Grammar.eval_never_fuel n F atom e st hn hF
+
+/-- the interpreter only moves forward, by exactly the characters it takes off the input (every expression, every state) -/
+theorem interpreter_only_moves_forward (F : Nat) (atom : Pest.Atom) (e : Pest.PExpr Grammar.Rule) (st st' : Pest.St)
+    (t : List (Pest.Tok Grammar.Rule)) (h : Pest.eval Grammar.rules Grammar.ws F atom e st = .ok st' t) :
+    st'.pos + st'.rest.length = st.pos + st.rest.length ∧ st.pos ≤ st'.pos :=
+  let h' := Pest.eval_adv Grammar.rules Grammar.ws Grammar.nul (fun r => (Grammar.wf_rule r).1) F atom e st st' t h
+  ⟨h'.1, h'.2.1⟩
+
+/-- the first stage of `compile2` therefore always ends in pairs or in the syntax error: what is left of `.fuel` in
+    `compile2Inner` comes from the token loop only -/
+theorem compile_parse_stage_is_definite (src : Str) :
+    (∃ st toks, Pest.parse Grammar.rules Grammar.ws .r_handlebars src = .ok st toks) ∨
+    Pest.parse Grammar.rules Grammar.ws .r_handlebars src = .fail := by
+  have h := parsing_terminates .r_handlebars src
+  cases h1 : Pest.parse Grammar.rules Grammar.ws .r_handlebars src with
+  | ok st toks => exact Or.inl ⟨st, toks, rfl⟩
+  | fail => exact Or.inr rfl
+  | fuel => exact absurd h1 h
+
+/-- no repetition of the grammar is over a body that can succeed on nothing (where pest's generated loop would not
+    return) – decided by the kernel on the regenerated grammar … -/
+theorem repetitions_have_consuming_bodies (r : Grammar.Rule) :
+    Pest.repsConsume Grammar.nul (Grammar.rules r).body = true := Grammar.reps_consume r
+
+/-- … so the interpreter's guard "stop a repetition that made no progress" – the one place where the model's loop differs
+    from pest's – never decides anything: after a round of a repetition with such a body the position has moved -/
+theorem no_progress_guard_is_dead (F : Nat) (atom : Pest.Atom) (a : Pest.PExpr Grammar.Rule) (st st1 st2 : Pest.St)
+    (t1 t2 : List (Pest.Tok Grammar.Rule)) (ha : Pest.nullable Grammar.nul a = false)
+    (h1 : Pest.eval Grammar.rules Grammar.ws F atom .skip st = .ok st1 t1)
+    (h2 : Pest.eval Grammar.rules Grammar.ws F atom a st1 = .ok st2 t2) :
+    (st2.pos == st.pos) = false :=
+  Pest.starTail_round_advances Grammar.rules Grammar.ws Grammar.nul (fun r => (Grammar.wf_rule r).1) F atom a st st1 st2 t1 t2 ha h1 h2
 
 end Hbs.C04
